@@ -46,6 +46,10 @@ SUB_SOURCES = [
     # bindings whose text contains backslashes, quotes, braces, format fields, non-ascii
     "p = f('C:\\\\new\\\\table.txt', 7000)\nq = f('a\\nb', 7001)\n", "p = f(\"it's {x}\", 7000)\nq = f('{{y}}', 7000)\n",
     "p = f(b'\\x00\\\\', 7000)\nq = f(r'\\d+\\1', 7001)\n", "p = f('\u00e9\\u00e9', 7000)\n",
+    # statement sequences whose replacement differs from the match by indentation only
+    "if c:\n    x = 7000\ny = 7001\nz = 7000\n", "def f(c):\n    if c:\n        x = 7000\n        y = 7001\n    return 7000\n",
+    "while c:\n    c = 7000\nc = 7001\n", "if c:\n    x = 7000\n    y = 7001\nz = 7000\n",
+    "def f(c):\n    for i in c:\n        if i:\n            x = 7000\n            y = 7001\n        z = 7000\n    return 7001\n",
 ]
 SUB_PATTERNS = [
     ("{{a}} + {{b}}", "{{a}} + {{b}}"), ("{{a}} + {{b}}", "{{b}} + {{a}}"), ("{{a}} + {{a}}", "2 * {{a}}"),
@@ -54,6 +58,8 @@ SUB_PATTERNS = [
     ("[{{a}}, {{b}}, {{a}}]", "[{{b}}, {{a}}]"), ("return {{e}}", "return ({{e}})"), ("{{t}} = {{v}}", "{{t}} = {{v}}"),
     ("{{a}} < {{b}}", "{{b}} > {{a}}"), ("x = {{v}}\ny = {{w}}", "y = {{w}}\nx = {{v}}"),
     ("f({{a}}, {{b}})", "g({{b}}, {{a}})"), ("f({{a}}, 7000)", "f({{a}}, 7000)"), ("{{t}} = f({{a}}, {{b}})", "{{t}} = f({{a}}, {{b}})"),
+    ("if {{c}}:\n    {{a}}\n{{b}}", "if {{c}}:\n    {{a}}\n    {{b}}"), ("if {{c}}:\n    {{a}}\n    {{b}}", "if {{c}}:\n    {{a}}\n{{b}}"),
+    ("while {{c}}:\n    {{a}}\n{{b}}", "while {{c}}:\n    {{a}}\n    {{b}}"), ("if {{c}}:\n    {{a}}\n    {{b}}", "if {{c}}:\n    {{b}}\n    {{a}}"),
 ]
 
 
